@@ -40,7 +40,7 @@ CHECKS = {
             "of list-header/length-width/token-vs-literal/packed/JID/string-content/deflate choices for trees with few sites, "
             "random vectors otherwise) and the library decoder must return the tree. The 1260 dictionary entries are compared "
             "index by index with a frozen copy. The reference codec is self-checked on every vector and anchored on the byte "
-            "strings pinned in the repository's coder tests; if that fails the run is inconclusive. One coder layer is driven through histories of sends in which some stanzas are refused by the encoder: every frame on the wire must be a valid encoding of exactly its stanza.",
+            "strings pinned in the repository's coder tests; if that fails the run is inconclusive. One coder layer is driven through histories of sends in which some stanzas are refused by the encoder: every frame on the wire must be a valid encoding of exactly its stanza. One decoder (as a coder layer keeps it) through histories with damaged frames (compressed frames cut or corrupted, plain frames cut): refused, and every valid frame before and after decodes to its tree.",
             "Trusted: vf/refcodec.py (our reading of the format), data/tokens.json (frozen copy, independent in time only).",
             "DESIGN.md 4/C02"),
     "C05": ("exploration",
@@ -74,7 +74,7 @@ CHECKS = {
             "emitter x consumer x emit/broadcast x normal/detached event (exactly once, in order, nothing after the consumer, "
             "deferred part only after the library's own loop body ran), interface lookup by class; all 16 getProtocolLayers/"
             "getDefaultLayers combos, positional forms, all 32x2 getDefaultStack combos, pushDefaultLayers. Exhaustive for the "
-            "small shapes and the flag space, sampled above. Every stack built by the default helpers is kept and its wiring (neighbour links, stack membership of every layer and sublayer) is verified again after later stacks were built; a builder with a pushed, popped and pushed layer is included. The library's own pass-through layer (logger) is placed as plain layer and as member of parallel groups of every size/position in explicit, implicit and builder compositions: data must reach every layer once. Four stacks carry a subclass of the library's interface layer on top: each finds the network/auth interfaces of its own stack, in any asking order. 150 stacks of random shape over the library's own YowNetworkLayer: its dispatcher callbacks are called for 2-4 connections in a row; connected seen once at once, disconnected once by the neighbour at once and by the rest only when the loop runs. 120 stacks of the library's own layers (any module selection, with/without encryption layers) under drawn values of ping interval, passive, auto-trust and reconnect: events emitted below reach a probe above exactly once, broadcasts from above reach a probe below exactly once. Eight complete default stacks (any module selection) through a whole first login against the server double: the network layer's state events are seen once, in order, above the whole stack. Two stacks from every published yowsup.stacks.YOWSUP_* tuple; earlier stacks stay wired to their own layers. 'disconnected' is announced up to three times in a row (failed connection attempts) to the stacks of library layers.",
+            "small shapes and the flag space, sampled above. Every stack built by the default helpers is kept and its wiring (neighbour links, stack membership of every layer and sublayer) is verified again after later stacks were built; a builder with a pushed, popped and pushed layer is included. The library's own pass-through layer (logger) is placed as plain layer and as member of parallel groups of every size/position in explicit, implicit and builder compositions: data must reach every layer once. Four stacks carry a subclass of the library's interface layer on top: each finds the network/auth interfaces of its own stack, in any asking order. 150 stacks of random shape over the library's own YowNetworkLayer: its dispatcher callbacks are called for 2-4 connections in a row; connected seen once at once, disconnected once by the neighbour at once and by the rest only when the loop runs. 120 stacks of the library's own layers (any module selection, with/without encryption layers) under drawn values of ping interval, passive, auto-trust and reconnect: events emitted below reach a probe above exactly once, broadcasts from above reach a probe below exactly once. Eight complete default stacks (any module selection) through a whole first login against the server double: the network layer's state events are seen once, in order, above the whole stack. Two stacks from every published yowsup.stacks.YOWSUP_* tuple; earlier stacks stay wired to their own layers. 'disconnected' is announced up to three times in a row (failed connection attempts) to the stacks of library layers. 120 stacks of the library's transport layers with a frame half received, a header half received, a frame just completed or nothing: two deferred disconnected announcements and two plain events are each seen once above.",
             "Trusted: the reference interpreter (our reading of the statement). Siblings inside the emitter's/consumer's own group: only 'at most once'.",
             "DESIGN.md 4/C18"),
     "C19": ("fault_enumeration",
@@ -84,7 +84,7 @@ CHECKS = {
             "save(dest=), config_to_str+file and YowProfile.write_config, loaded by path with/without extension and by profile "
             "name, profile directory existing or not. Crash points: every Python line of the save path, the file open, every "
             "7-byte chunk reaching the OS, close and rename are enumerated completely for each sampled save; a forked child is "
-            "killed there and the parent requires load() to return the previous or the new configuration. The previous configuration is either config.json or a key=value config.yo in the profile directory. JSON values include lone surrogates. In half of the round trips the configuration is read (keys, str, items) before it is saved. 40% of the profiles are saved a second time with other values (JSON profile routes); loads also through stack.setProfile(name). A constructed configuration must read back, field by field, what the constructor was given.",
+            "killed there and the parent requires load() to return the previous or the new configuration. The previous configuration is either config.json or a key=value config.yo in the profile directory. JSON values include lone surrogates. In half of the round trips the configuration is read (keys, str, items) before it is saved. 40% of the profiles are saved a second time with other values (JSON profile routes); loads also through stack.setProfile(name). A constructed configuration must read back, field by field, what the constructor was given. Extension-less files are rewritten in the other format through the same manager object and loaded again.",
             "Trusted: os.rename atomicity and the filesystem; process death only (no power loss). Saves to enumerate are sampled, their crash points are complete.",
             "DESIGN.md 4/C19"),
     "C13": ("fault_enumeration",
@@ -95,7 +95,7 @@ CHECKS = {
             "before/after each DML statement, before/after each commit, every Python line in store/sqlite/*.py - is a crash point: "
             "a forked child is killed there, the parent reopens the file and requires every record to be its old or its new "
             "value, never missing; plus two-party conversations continued across restarts of either side. Crash points are "
-            "complete per operation instance; states and sequences are sampled. Manager level: level_prekeys / generate_signed_prekey / set_prekeys_as_sent through AxolotlManager with batch sizes 1..205; after every returned call the database files are copied as a kill would leave them and the copy must show what the live store shows. Crash children first replay a state-preserving tail of the history (and sometimes an upload confirmation) on their own connection before the judged operation. Busy start: another connection holds the profile's key store lock past the busy timeout while the client starts through the factory; after the lock is gone the next start must find the stored state. Ops store...Again: a record is stored under an id that is taken; refused or replaced, whatever the live store shows has to survive the restart that follows at once in half of the cases. Profiles: 2-3 profiles in one process, two of them for the same phone number; each key store file, read on its own, shows what was stored through that profile. Profile switch: one stack connects as A, disconnects, setProfile(B), connects: keys offered afterwards are B's, A's file is untouched.",
+            "complete per operation instance; states and sequences are sampled. Manager level: level_prekeys / generate_signed_prekey / set_prekeys_as_sent through AxolotlManager with batch sizes 1..205; after every returned call the database files are copied as a kill would leave them and the copy must show what the live store shows. Crash children first replay a state-preserving tail of the history (and sometimes an upload confirmation) on their own connection before the judged operation. Busy start: another connection holds the profile's key store lock past the busy timeout while the client starts through the factory; after the lock is gone the next start must find the stored state. Ops store...Again: a record is stored under an id that is taken; refused or replaced, whatever the live store shows has to survive the restart that follows at once in half of the cases. Profiles: 2-3 profiles in one process, two of them for the same phone number; each key store file, read on its own, shows what was stored through that profile. Profile switch: one stack connects as A, disconnects, setProfile(B), connects: keys offered afterwards are B's, A's file is untouched. saveIdentity also pins the account's own identity key for a contact (chat with one's own number).",
             "Trusted: SQLite's atomic commit, the filesystem, python-axolotl (with the block-aligned padding shim). Process death only.",
             "DESIGN.md 4/C13"),
     "C10": ("exploration",
@@ -105,7 +105,7 @@ CHECKS = {
             "to depth 3) go through message_to_protobytes/protobytes_to_message and through the message entity classes; a "
             "reflective comparator walks the public properties of the attribute classes and requires every field the sender set "
             "to come back equal. In the other direction protobuf payloads built directly with generated fields are parsed and "
-            "re-serialised and compared on the fields the library models. Entities are also re-composed: after a first serialisation every field is changed through its property and the second payload must carry the new content. Half of the objects are composed with unset arguments left out (not passed as None); list-valued fields of earlier objects are edited in place; a field the sender did not set must not carry a non-empty value in the composed object. Message keys carry newer group ids without a dash, the status list, broadcast lists and companion-device JIDs.",
+            "re-serialised and compared on the fields the library models. Entities are also re-composed: after a first serialisation every field is changed through its property and the second payload must carry the new content. Half of the objects are composed with unset arguments left out (not passed as None); list-valued fields of earlier objects are edited in place; a field the sender did not set must not carry a non-empty value in the composed object. Message keys carry newer group ids without a dash, the status list, broadcast lists and companion-device JIDs. Every 17th object two unserialisable compositions (a text where a number belongs, one to three quotes deep) are attempted first; valid ones after them are judged as always.",
             "Trusted: protobuf runtime; field types read from the generated descriptors. Unset fields may come back as defaults (counted).",
             "DESIGN.md 4/C10"),
     "C04": ("exploration",
@@ -144,7 +144,7 @@ CHECKS = {
             "every event the model is compared with load_unsent_prekeys, the stored keys and the uploads seen by the server: "
             "pending == stored minus confirmed, confirmed keys never re-offered, every offered (id, key) is in the store until a "
             "delivered first message consumed it and gone afterwards, a replay delivers nothing, identity/registration id match "
-            "the account and the signed prekey verifies under the identity (Curve.verifySignature). Overlapping uploads: the server asks again while earlier uploads are unanswered; results arrive in order, reversed, or the last one is lost. While an upload is unanswered the application issues pings that the server answers (their ids driven past the upload's id): the upload stays unconfirmed. Signed prekey ids are tracked like one-time keys (an id names one key for ever, the server-held one must be in the store); a quarter of the histories start with an unconfirmed first upload followed by a kill; the world's restart rolls back and closes the old connection. Event stray-iq-during-upload (an iq with the unanswered upload's id and type get / set / none / unknown, then the real answer is lost); one restart in four finds the key store locked at first. The account draws the stack options reconnect-on-stream-error (on/off/unset) and auto-trust. A fifth of the logins get a success reply lacking one optional attribute; after every accepted login the keys that were pending have to be offered. Forced histories with uploads of exactly 255/256/257 keys (first upload with such a batch; two unconfirmed half batches offered at one login).",
+            "the account and the signed prekey verifies under the identity (Curve.verifySignature). Overlapping uploads: the server asks again while earlier uploads are unanswered; results arrive in order, reversed, or the last one is lost. While an upload is unanswered the application issues pings that the server answers (their ids driven past the upload's id): the upload stays unconfirmed. Signed prekey ids are tracked like one-time keys (an id names one key for ever, the server-held one must be in the store); a quarter of the histories start with an unconfirmed first upload followed by a kill; the world's restart rolls back and closes the old connection. Event stray-iq-during-upload (an iq with the unanswered upload's id and type get / set / none / unknown, then the real answer is lost); one restart in four finds the key store locked at first. The account draws the stack options reconnect-on-stream-error (on/off/unset) and auto-trust. A fifth of the logins get a success reply lacking one optional attribute; after every accepted login the keys that were pending have to be offered. Forced histories with uploads of exactly 255/256/257 keys (first upload with such a batch; two unconfirmed half batches offered at one login). Event self-chat: a message to the account's own number.",
             "Trusted: the server double (stores keys on processing the request), python-axolotl. Histories sampled.",
             "DESIGN.md 4/C14"),
     "C17": ("exploration",
@@ -184,7 +184,7 @@ CHECKS = {
             "dispatchers over loopback TCP (peer close, local disconnect, refused connect, stream error with automatic "
             "reconnect, re-login after the network thread ended, immediate re-login from another thread while the first "
             "connect() has not returned, login failure), with yield injection inside the dispatchers; judged on announcement "
-            "counts, network-thread termination, no spurious close, resumed (IK) handshake, exceptions in network threads. Real dispatchers: ECONNRESET is injected into the next socket write of the socket and asyncore dispatchers over loopback; the failing send and a later send from another thread must return, no lock may stay held (layer locks and the dispatcher's), the connection is announced down once and a reconnect logs in and carries a stanza. Further events: the connection going down at line event k of the keep-alive thread's step (random k in histories; k=1..20 as scripted sweeps followed by a relogin with every ping answered), a partial further frame behind a connection-ending stanza, a connect request before the stack's loop has delivered the previous 'disconnected' announcement (judged), the new connection even coming up before that (known finding reconnect-up-before-loop-turn), and for asyncore a disconnect() placed between the loop's descriptor collection and its select(). Upward failure under the real dispatchers: a layer raises on an incoming frame, the application reconnects from another thread once the announcement has reached it while the old network thread is held at its next line; the new connection must log in, stay up, be announced down zero times and carry a stanza. A pong may arrive while the keep-alive thread is still inside the send of its ping (event tick-pong-race and scripted histories), after which answered pings must never time out. After every non-critical failure two threads send at once (the thread that saw the failure inside a long send, a second one joining), with yield injection; the strict peer must still decrypt everything exactly once. Real scenario first-login-reboot: passive login, key upload confirmed by the server thread, the library's own close and non-passive reconnect, with the network thread held at its next line in the control layer until the loop thread has worked off the announcement. Race placement after every non-critical failure: the thread that saw the failure, or a fresh one, is held between cipher counter and write queue while the other sends or acknowledges (five role combinations). Key-request failures: a message from a sender without session, the key request fails (answer without keys; failpoint while it goes down), the sender's next message must be handled like the first. Event connect-request-while-up: refused, nothing changes. Real dispatchers: a layer raises on an incoming frame (harness shared with C12): announced down once, a new connect logs in. Natural failure key-request-without-t: a key-count notification the library cannot parse, then a well-formed one has to lead to an upload. Stream errors with text before condition. Natural failure truncated-compressed-frame (deflate stream without its end): has to be reported, nothing of it delivered. In half of the real upward-failure cases the application asks for a disconnect on the dead connection before it reconnects. Failure stanzas carry a reason code, a reason word or no reason.",
+            "counts, network-thread termination, no spurious close, resumed (IK) handshake, exceptions in network threads. Real dispatchers: ECONNRESET is injected into the next socket write of the socket and asyncore dispatchers over loopback; the failing send and a later send from another thread must return, no lock may stay held (layer locks and the dispatcher's), the connection is announced down once and a reconnect logs in and carries a stanza. Further events: the connection going down at line event k of the keep-alive thread's step (random k in histories; k=1..20 as scripted sweeps followed by a relogin with every ping answered), a partial further frame behind a connection-ending stanza, a connect request before the stack's loop has delivered the previous 'disconnected' announcement (judged), the new connection even coming up before that (known finding reconnect-up-before-loop-turn), and for asyncore a disconnect() placed between the loop's descriptor collection and its select(). Upward failure under the real dispatchers: a layer raises on an incoming frame, the application reconnects from another thread once the announcement has reached it while the old network thread is held at its next line; the new connection must log in, stay up, be announced down zero times and carry a stanza. A pong may arrive while the keep-alive thread is still inside the send of its ping (event tick-pong-race and scripted histories), after which answered pings must never time out. After every non-critical failure two threads send at once (the thread that saw the failure inside a long send, a second one joining), with yield injection; the strict peer must still decrypt everything exactly once. Real scenario first-login-reboot: passive login, key upload confirmed by the server thread, the library's own close and non-passive reconnect, with the network thread held at its next line in the control layer until the loop thread has worked off the announcement. Race placement after every non-critical failure: the thread that saw the failure, or a fresh one, is held between cipher counter and write queue while the other sends or acknowledges (five role combinations). Key-request failures: a message from a sender without session, the key request fails (answer without keys; failpoint while it goes down), the sender's next message must be handled like the first. Event connect-request-while-up: refused, nothing changes. Real dispatchers: a layer raises on an incoming frame (harness shared with C12): announced down once, a new connect logs in. Natural failure key-request-without-t: a key-count notification the library cannot parse, then a well-formed one has to lead to an upload. Stream errors with text before condition. Natural failure truncated-compressed-frame (deflate stream without its end): has to be reported, nothing of it delivered. In half of the real upward-failure cases the application asks for a disconnect on the dead connection before it reconnects. Failure stanzas carry a reason code, a reason word or no reason. Natural failure undecryptable-message (fails inside the key manager, answered with a retry receipt), followed first by an encrypted send from another thread.",
             "Trusted: the reference machine (our reading of the statement), scripted dispatcher, loopback server thread. First login (key upload, reconnect) precedes the judged history.",
             "DESIGN.md 4/C16"),
     "C09": ("exploration",
@@ -194,7 +194,7 @@ CHECKS = {
             "without a fixture are converted to their entity and back (300 draws per class quick, 6 000 thorough) and compared "
             "with a strict comparator (numbers by value; protobuf payloads field-wise). 34 application/library-sendable entity "
             "constructors with generated arguments plus generated message entities are serialised and pushed through the "
-            "library encoder, the library decoder and the independent reference decoder. Optional fields: for every receive-side class (a layer or a receive-side entity parses with it) each field is unset / an unset field is set, and when the class's own serialiser answers with pure deletions/additions that stanza must make the same round trip (an absent attribute written back as its default is accepted). Key results mix complete and incomplete users in every order: complete users unchanged, incomplete ones (and only those) reported as errors. Aliasing probe: every text/bytes field of a converted entity is edited, then the same stanza is converted again and must come out unchanged. List-valued fields now and then have 255/256/257 items (where the list header of the wire encoding changes). Stream errors come with condition and text in either order (compared order-insensitively for that node).",
+            "library encoder, the library decoder and the independent reference decoder. Optional fields: for every receive-side class (a layer or a receive-side entity parses with it) each field is unset / an unset field is set, and when the class's own serialiser answers with pure deletions/additions that stanza must make the same round trip (an absent attribute written back as its default is accepted). Key results mix complete and incomplete users in every order: complete users unchanged, incomplete ones (and only those) reported as errors. Aliasing probe: every text/bytes field of a converted entity is edited, then the same stanza is converted again and must come out unchanged. List-valued fields now and then have 255/256/257 items (where the list header of the wire encoding changes). Stream errors come with condition and text in either order (compared order-insensitively for that node). After every message / receipt / notification stanza a second one from the same sender without its push name and offline marker: nothing of the first shows in it.",
             "Trusted: vf/catalogue.py (our transcription of the documented shapes), vf/refcodec.py. Enumeration-valued attributes keep the documented literal.",
             "DESIGN.md 4/C09"),
     "C06": ("exploration",
@@ -227,7 +227,7 @@ CHECKS = {
             "with and without the axolotl layers. Exactly the predicted callback must fire, once, with the original request "
             "object and the matching reply; anything else must fire nothing. Library-internal requests (key fetch incl. "
             "error/unknown/duplicate replies, key upload) are judged by their effect (message sent once / keys marked sent). "
-            "Four seeded mutants (shared registry, both callbacks, entry not removed, original not attached) are caught. The send layer's internal chain for a first group message (group info, then one key request for all members without session) runs with key results that leave members out and with replayed results: the message leaves exactly once, the sender key goes to exactly the keyed members, replays trigger nothing. Concurrent runs: 2-4 application threads and a keep-alive-like sender issue requests while a receive thread answers them, with yield injection in the registry code; every callback / reply entity exactly once. Non-reply iq stanzas carrying a pending id have type get, set, none or an unknown one; upload requests are answered with both result shapes. A quarter of the requests are twins of an earlier one (same target and arguments, new id), issued while the first is outstanding or after it was answered. Group-list replies are generated lists of 0..4 groups (empty container included). Error replies carry a back-off attribute in 30% of the cases.",
+            "Four seeded mutants (shared registry, both callbacks, entry not removed, original not attached) are caught. The send layer's internal chain for a first group message (group info, then one key request for all members without session) runs with key results that leave members out and with replayed results: the message leaves exactly once, the sender key goes to exactly the keyed members, replays trigger nothing. Concurrent runs: 2-4 application threads and a keep-alive-like sender issue requests while a receive thread answers them, with yield injection in the registry code; every callback / reply entity exactly once. Non-reply iq stanzas carrying a pending id have type get, set, none or an unknown one; upload requests are answered with both result shapes. A quarter of the requests are twins of an earlier one (same target and arguments, new id), issued while the first is outstanding or after it was answered. Group-list replies are generated lists of 0..4 groups (empty container included). Error replies carry a back-off attribute in 30% of the cases. The first group message is also sent when some members already have a pairwise session: keys are requested for exactly the others and the message leaves once.",
             "Trusted: the reference registry and the documented reply shapes of vf/catalogue.py. Histories sampled.",
             "DESIGN.md 4/C08"),
 }
